@@ -90,10 +90,10 @@ for flags in vectors():
 # ---- derived properties
 de = Component("derived-properties", "configurations with domain lists (1-4 pairs, domains/URIs over [a-z0-9./_-]), protocol flags, "
                "port, kill dates (SETTING_KILLDATE and legacy year/month/day), watermark, crypto scheme, public key padding, DNS idle; " + str(N) + " configs")
-def tok2(): return "".join(rng.choice("abcdefgh0123./_-") for _ in range(rng.randrange(1, 10)))
+def tok2(): return "".join(rng.choice("abcdefgh0123./_-" if rng.random() < 0.93 else "\x81\x85\x93\xe9\xff") for _ in range(rng.randrange(1, 10)))
 for _ in range(N):
     pairs = [(tok2(), "/" + tok2()) for _ in range(rng.randrange(1, 5))]
-    dom = ",".join(f"{d},{u}" for d, u in pairs).encode() + b"\x00" * rng.randrange(1, 5)
+    dom = ",".join(f"{d},{u}" for d, u in pairs).encode("latin-1") + b"\x00" * rng.randrange(1, 5)
     proto = rng.choice([0, 1, 2, 4, 8, 16])
     port = rng.randrange(65536)
     kd = rng.choice([0, 20250131, 99999999, 20231301])
@@ -164,7 +164,10 @@ for rep in range(3 if TIER == "quick" else 40):
             TABLE.append((idx, 3, raw, lambda r=raw: parse_pivot_frame(r)))
     for idx in STRINGS:
         word = bytes(rng.choice(b"abcXYZ/%\\.-_ ") for _ in range(rng.randrange(0, 12)))
-        for raw in (b"", bytes(rng.choice([1, 16, 64])), word, word + bytes(rng.randrange(1, 5)), word + b"\x00" + b"junk", b"\xff" + word + b"\x00"):
+        hi = bytes(rng.randrange(0x80, 0x100) for _ in range(rng.randrange(1, 9)))
+        for raw in (b"", bytes(rng.choice([1, 16, 64])), word, word + bytes(rng.randrange(1, 5)), word + b"\x00" + b"junk", b"\xff" + word + b"\x00",
+                    # every byte value is one character of the decoded string (0x80-0x9f are where the 8-bit code pages differ)
+                    bytes(range(1, 256)), bytes(range(0x80, 0xa0)) + b"\x00", hi + word + hi + b"\x00\x00"):
             TABLE.append((idx, 3, raw, lambda r=raw: ref_str(r)))
     key = bytes(rng.randrange(1, 256) for _ in range(rng.randrange(0, 40)))
     for raw in (b"", bytes(256), key, key + bytes(256 - len(key))):
